@@ -38,3 +38,16 @@ func (r *Rng) Bytes(alphabet []byte, n int) []byte {
 // Fork derives an independent generator (so that adding draws in one stream
 // does not shift another).
 func (r *Rng) Fork() *Rng { return &Rng{s: r.Next()} }
+
+// Perm returns a random permutation of 0..n-1 (Fisher-Yates).
+func (r *Rng) Perm(n int) []int {
+	p := make([]int, n)
+	for i := range p {
+		p[i] = i
+	}
+	for i := n - 1; i > 0; i-- {
+		j := r.Intn(i + 1)
+		p[i], p[j] = p[j], p[i]
+	}
+	return p
+}
